@@ -137,6 +137,10 @@ PAIRS = {
     "class_vs_element": ("m: int", [], 'Object.inline("M", properties={"a": Property(Integer(minimum=m))})', 'Element(properties={"a": Property(Integer(minimum=m))})', DV, DPRE, "thorough"),
     "pattern_props": ("m: int, n: int", [], 'Element(patternProperties={"^a": Integer(minimum=m)})', 'Element(patternProperties={"^a": Integer(minimum=n)})', DV, DPRE, "thorough"),
     "dependencies": ("s1: bool", [], 'Element(dependencies={"a": ["b"]})', 'Element(dependencies={"a": (["b"] if s1 else Element(required=["b"]))})', DV, DPRE, "thorough"),
+    "dependencies_key_order": ("m: int, n: int, sw: bool", [], 'Element(dependencies={"a": Element(required=["b"]), "b": Element(properties={"a": Property(Integer(minimum=m))}), "ab": ["a"]})',
+                               'Element(dependencies=dict(list({"a": Element(required=["b"]), "b": Element(properties={"a": Property(Integer(minimum=n))}), "ab": ["a"]}.items())[::(-1 if sw else 1)]))', DV, DPRE, "quick"),
+    "properties_key_order": ("m: int, n: int, sw: bool", [], 'Element(properties={"a": Property(Integer(minimum=m)), "b": Property(Integer(maximum=m))}, patternProperties={"^a": Integer(multipleOf=2), "b$": Integer(maximum=n)})',
+                             'Element(properties=dict(list({"a": Property(Integer(minimum=m)), "b": Property(Integer(maximum=m))}.items())[::(-1 if sw else 1)]), patternProperties=dict(list({"^a": Integer(multipleOf=2), "b$": Integer(maximum=n)}.items())[::(-1 if sw else 1)]))', DV, DPRE, "quick"),
     "parsed_vs_dsl": ("m: int, n: int", [], 'parse_s({"type": "integer", "minimum": m})', 'Integer(minimum=n)', SV, SVPRE, "quick"),
 }
 
